@@ -1,10 +1,26 @@
-"""C16 — generated wiring; generators come from tools/gens/*.py (gen_C16) of the units in tools/units.py."""
+"""C16 — vectorised and portable code paths compute identical results.
+The hash / MAC / cipher / KDF workloads of the other properties are run through harness binaries built with
+-C target-feature in {baseline, +sse4.1, +avx, +avx2} (the host CPU has all of them) and through the
+portable-vs-native ChaCha engine ops; every binary must answer exactly what the Lean model/Spec answers."""
+import itertools
 from props import _auto
 
 LEAN_MODULES = _auto.lean_modules("C16")
-VARIANTS = ['default', 'sse41', 'avx', 'avx2']
-RULE = 'the hash/cipher workloads run through harness binaries built for {baseline, +sse4.1, +avx, +avx2} and the portable-vs-native ChaCha engine ops; block counts 1..=20, every input offset 0..=31; non-trivial = non-empty data; distinct = distinct case lines'
-TRUSTED = ["hand-written Lean models (lean/CxVerif/Impl, Spec) tied to the code by the correspondence run and by tables re-extracted from /repo/src"]
-ASSUMPTIONS = []
-gen = _auto.make_gen("C16")
+VARIANTS = ["default", "sse41", "avx", "avx2"]
+RULE = ("unit generators gen_C16 (block counts 1..=20 per call, arbitrary chaining states, every input offset 0..=31, keyed/unkeyed "
+        "BLAKE2, portable vs native ChaCha engine for every key/nonce length) plus a deterministic sample of the C01/C02/C03/C04/"
+        "C05/C06/C08/C10/C11 workloads, all run through the four feature builds; non-trivial = non-empty data; distinct = distinct case lines")
+TRUSTED = ["hand-written Lean models (lean/CxVerif/Impl, Spec) tied to the code by the correspondence run",
+           "which machine instructions a target-feature build selects is observed on the real binaries, not proved"]
+ASSUMPTIONS = ["host CPU supports sse4.1, avx, avx2 (checked at run time via `cxharness features`)"]
 nontrivial = _auto.default_nontrivial
+REUSE = {"C01": 6, "C02": 40, "C03": 3, "C04": 3, "C05": 10, "C06": 10, "C08": 6, "C10": 6, "C11": 4}
+
+
+def gen(tier, rng):
+    yield from _auto.make_gen("C16")(tier, rng)
+    for prop, stride in REUSE.items():
+        k = stride if tier == "quick" else max(1, stride // 3)
+        for i, (line, kind) in enumerate(_auto.make_gen(prop)("quick", rng)):
+            if i % k == 0:
+                yield (line, f"{prop}/{kind}")
